@@ -8,11 +8,18 @@ history / monitor suites:
   C09 h cap=<c> max=<a> orc=<T|F|R> ps=<peerset> <op>... => <obs>...
     peerset  n (no PeersFunc) | e (PeersFunc fails) | - (known, empty) | 0,2,3
     op       a<name>.<peer>.<valid 0|1><f|m fresh, e|z expired>   arrival (its id is its position)
+             a<name>.<peer>.<valid>@<expire>   arrival with expiry instant <expire> (model ms; a case starts at 1000)
+             +<d>   the clock advances by d ms
+             w<variant>.<name>.<peer>.<valid><kind | @expire>   a pubsub message arrives (variant = how it is encoded:
+               ok fu ex xx ar decode to the metric; ni ma a0 decode to the zero metric; tr<pp> em ju st tn tp tv te td tt bp
+               are decode errors)
              r<peer> RemovePeer | x<name>.<peer> RemovePeerMetrics | s<peerset> | q<name> LatestMetrics
              t one Watch tick | k<peers> CheckPeers
     obs      one token per q / t / k op, in order:
              q=<peer:id,...>;<sorted 0|1>     c=<name.peer.id,...>;<name.peer,...>     panic
     orc      accrual oracle: T always "failed", F never, R read off the implementation's answer
+watch suite (the real Checker.Watch ticks every <iv> ms from the start of the case; no q/t/k ops):
+  C09 w cap=<c> max=<a> orc=<T|F> ps=<peerset> iv=<ms> <op>... => <A<name>.<peer>.<id|x>/<tick> | G<name>.<peer>/<tick>>... | -
 cadence suite:
   C09 cad <inf|ping> <ttl ms> <error pattern> => pubs=<n> late=<l>
 -/
@@ -24,12 +31,33 @@ def parsePeerset (s : String) : Option Peerset :=
   else if s == "e" then some .error
   else (nats s).map .known
 
-def expiredOfKind (c : Char) : Option Bool :=
-  if c == 'f' || c == 'm' then some false
-  else if c == 'e' || c == 'z' then some true
+/-- expiry instants of the constant kinds: far in the future / at the epoch -/
+def expireOfKind (c : Char) : Option Nat :=
+  if c == 'f' || c == 'm' then some 1000000000000000
+  else if c == 'e' || c == 'z' then some 0
   else none
 
-def parseOp (idx : Nat) (s : String) : Option Op :=
+/-- `<valid 0|1><kind>` or `<valid>@<expire>` -/
+def parseVK (vk : String) : Option (Bool × Nat) := do
+  let v ← bool01 ((vk.take 1).toString)
+  let rest := (vk.drop 1).toString
+  if rest.startsWith "@" then
+    let e ← ((rest.drop 1).toString).toNat?
+    pure (v, e)
+  else if rest.length == 1 then
+    let e ← expireOfKind rest.front
+    pure (v, e)
+  else none
+
+/-- how the msgpack decoder treats a payload variant -/
+def payloadOf (variant : String) (n p : Nat) (v : Bool) (e : Nat) : Option Payload :=
+  if ["ok", "fu", "ex", "xx", "ar"].contains variant then some (.wellFormed n p v e)
+  else if ["ni", "ma", "a0"].contains variant then some .zeroValue
+  else if ["em", "ju", "st", "tn", "tp", "tv", "te", "td", "tt", "bp"].contains variant then some .malformed
+  else if variant.startsWith "tr" && ((variant.drop 2).toString).toNat?.isSome then some .malformed
+  else none
+
+def parseOp (idx : Nat) (s : String) : Option ROp :=
   let body := (s.drop 1).toString
   match s.front with
   | 'a' =>
@@ -37,28 +65,41 @@ def parseOp (idx : Nat) (s : String) : Option Op :=
     | [n, p, vk] => do
       let n ← n.toNat?
       let p ← p.toNat?
-      if vk.length != 2 then none else
-      let v ← bool01 ((vk.take 1).toString)
-      let e ← expiredOfKind (vk.drop 1).front
-      pure (.add { id := idx, name := n, peer := p, valid := v, expired := e })
+      let (v, e) ← parseVK vk
+      pure (.op (.add { id := idx, name := n, peer := p, valid := v, expire := e }))
     | _ => none
-  | 'r' => body.toNat?.map .rmPeer
+  | 'w' =>
+    match body.splitOn "." with
+    | [variant, n, p, vk] => do
+      let n ← n.toNat?
+      let p ← p.toNat?
+      let (v, e) ← parseVK vk
+      pure (.recv (← payloadOf variant n p v e))
+    | _ => none
+  | '+' => body.toNat?.map (fun d => .op (.advance d))
+  | 'r' => body.toNat?.map (fun p => .op (.rmPeer p))
   | 'x' =>
     match body.splitOn "." with
-    | [n, p] => do pure (.rmMetrics (← n.toNat?) (← p.toNat?))
+    | [n, p] => do pure (.op (.rmMetrics (← n.toNat?) (← p.toNat?)))
     | _ => none
-  | 's' => (parsePeerset body).map .setPeers
-  | 'q' => body.toNat?.map .query
-  | 't' => if body == "" then some .tick else none
-  | 'k' => (nats body).map .checkPeers
+  | 's' => (parsePeerset body).map (fun ps => .op (.setPeers ps))
+  | 'q' => body.toNat?.map (fun n => .op (.query n))
+  | 't' => if body == "" then some (.op .tick) else none
+  | 'k' => (nats body).map (fun l => .op (.checkPeers l))
   | _ => none
 
-def parseOps : Nat → List String → Option (List Op)
+def parseROps : Nat → List String → Option (List ROp)
   | _, [] => some []
   | i, w :: ws => do
     let op ← parseOp i w
-    let rest ← parseOps (i + 1) ws
+    let rest ← parseROps (i + 1) ws
     pure (op :: rest)
+
+/-- the history the model runs: received messages go through `logFromPubsub` (`lower`) -/
+def parseOps (i : Nat) (ws : List String) : Option (List Op) := (parseROps i ws).map (lower i)
+
+/-- the case starts at this model instant -/
+def caseT0 : Nat := 1000
 
 def parsePair (sep : String) (s : String) : Option (Nat × Nat) :=
   match s.splitOn sep with
@@ -127,7 +168,7 @@ def parseHistory (ws : List String) : Option Case := do
       else if mode == "F" then some (fun _ _ _ => false)
       else if mode == "R" then some (oracleOf out)
       else none
-    pure { input := { cap := cap, maxA := maxA, ps0 := ps0, ops := ops }, mode := mode, out := out, orc := orc }
+    pure { input := { cap := cap, maxA := maxA, ps0 := ps0, ops := ops, t0 := caseT0 }, mode := mode, out := out, orc := orc }
   | _ => none
 
 def showPairs (sep : String) (l : List (Nat × Nat)) : String :=
@@ -159,30 +200,138 @@ def arms (c : Case) : List String :=
   let forgot := c.out.any (fun o => match o with | .check _ f => !f.isEmpty | _ => false)
   let shown := c.out.any (fun o => match o with | .metrics l _ => !l.isEmpty | _ => false)
   let rm := c.input.ops.any (fun op => match op with | .rmPeer _ => true | .rmMetrics _ _ => true | _ => false)
+  let timed := c.input.ops.any (fun op => match op with | .advance d => d > 0 | _ => false)
+  -- a metric seen fresh (returned by a query) or stored at one observation and alerted at a later one
+  let expires := timed && alerts && c.input.ops.any (fun op => match op with
+    | .add m => decide (caseT0 < m.expire) && decide (m.expire < 1000000) | _ => false)
+  (if timed then ["timed"] else []) ++ (if expires then ["expires-inside"] else []) ++
   ["orc" ++ c.mode] ++ (if wrap then ["wrap"] else []) ++ (if alerts then ["alert"] else []) ++
   (if forgot then ["forget"] else []) ++ (if shown then ["metrics"] else []) ++ (if rm then ["removal"] else [])
 
 def showArms (l : List String) : String := " ".intercalate (l.map ("arm=" ++ ·))
 
-def answerHistory (ws : List String) : String :=
-  match parseHistory ws with
+/-- an alert for the zero metric carries no `Value` the harness could print: compare it without its id -/
+def normObs : Obs → Obs
+  | .check a f => .check (a.map (fun x => if x.1 == emptyName && x.2.1 == emptyPeer then (x.1, x.2.1, none) else x)) f
+  | o => o
+
+def answerCase (oc : Option Case) (extra : List String) : String :=
+  match oc with
   | none => "bad-case"
   | some c =>
     if !wf c.input then "bad-case not-wf" else
     let failed := dedupS (((clauses c.input c.orc c.out).filter (fun x => !x.2)).map (·.1))
-    let model := run c.input c.orc
+    let model := (run c.input c.orc).map normObs
     let tags := sortS (dedupS (failTags c.input c.orc c.out))
     if !failed.isEmpty then
-      "propfail " ++ ",".intercalate failed ++ " " ++ showArms (arms c) ++
+      "propfail " ++ ",".intercalate failed ++ " " ++ showArms (extra ++ arms c) ++
         (if tags.isEmpty then "" else " sig=" ++ ",".intercalate tags)
     else if c.input.maxA != Gen.maxAlertThreshold then
       -- the harness reports the running package's MaxAlertThreshold; the theorems are about the generated one
-      "diff " ++ showArms (arms c) ++ " model=max-alert-threshold-" ++ toString Gen.maxAlertThreshold
-    else if !sameAll model c.out then
-      "diff " ++ showArms (arms c) ++ " model=" ++ " ".intercalate ((model.map showObs).filter (· != ""))
+      "diff " ++ showArms (extra ++ arms c) ++ " model=max-alert-threshold-" ++ toString Gen.maxAlertThreshold
+    else if !sameAll model (c.out.map normObs) then
+      "diff " ++ showArms (extra ++ arms c) ++ " model=" ++ " ".intercalate ((model.map showObs).filter (· != ""))
     else
       let observing := c.input.ops.any (fun op => isCheck op || (match op with | .query _ => true | _ => false))
-      "ok " ++ showArms (arms c) ++ (if observing then "" else " trivial")
+      "ok " ++ showArms (extra ++ arms c) ++ (if observing then "" else " trivial")
+
+def answerHistory (ws : List String) : String :=
+  let recv := ws.any (fun w => w.startsWith "w")
+  answerCase (parseHistory ws) (if recv then ["recv"] else [])
+
+/-! ### watch cases: the ticks come from `Checker.Watch` -/
+
+/-- ids are positions: renumber after the ticks were put in; returns (original index, new position) too -/
+def renumber : Nat → List Op → List Op × List (Nat × Nat)
+  | _, [] => ([], [])
+  | i, .add m :: ops =>
+    let r := renumber (i + 1) ops
+    (.add { m with id := i } :: r.1, (m.id, i) :: r.2)
+  | i, op :: ops =>
+    let r := renumber (i + 1) ops
+    (op :: r.1, r.2)
+
+/-- an operation right at a tick instant: its order with the tick is not determined -/
+def eventAtTick : List Op → Bool
+  | [] => false
+  | .tick :: rest =>
+    let rec skip : List Op → Bool
+      | .advance 0 :: r => skip r
+      | .advance _ :: _ => false
+      | .tick :: _ => false
+      | [] => false
+      | _ :: _ => true
+    skip rest || eventAtTick rest
+  | _ :: rest => eventAtTick rest
+
+structure WEvent where
+  alert : Bool
+  n : Nat
+  p : Nat
+  id : Option Nat
+  tick : Nat
+
+def parseWEvent (s : String) : Option WEvent :=
+  match ((s.drop 1).toString).splitOn "/" with
+  | [body, j] => do
+    let j ← j.toNat?
+    if s.startsWith "A" then
+      match body.splitOn "." with
+      | [n, p, i] => do
+        let id ← if i == "x" then some none else i.toNat?.map some
+        pure { alert := true, n := ← n.toNat?, p := ← p.toNat?, id := id, tick := j }
+      | _ => none
+    else if s.startsWith "G" then
+      match body.splitOn "." with
+      | [n, p] => do pure { alert := false, n := ← n.toNat?, p := ← p.toNat?, id := none, tick := j }
+      | _ => none
+    else none
+  | _ => none
+
+/-- observations aligned with the expanded history: the `j`-th tick gets the events reported for tick `j` -/
+def watchObs (tbl : List (Nat × Nat)) (evs : List WEvent) : Nat → List Op → List Obs
+  | _, [] => []
+  | j, .tick :: ops =>
+    let here := evs.filter (fun e => e.tick == j + 1)
+    let al : List Alert := (here.filter (·.alert)).map (fun e =>
+      (e.n, e.p, e.id.map (fun i => match tbl.find? (fun x => x.1 == i) with | some x => x.2 | none => 1000000 + i)))
+    let fg : List Key := (here.filter (fun e => !e.alert)).map (fun e => (e.n, e.p))
+    .check al fg :: watchObs tbl evs (j + 1) ops
+  | j, _ :: ops => .silent :: watchObs tbl evs j ops
+
+def parseWatch (ws : List String) : Option (Case × Bool × Bool) := do
+  let (pre, post) ← splitArrow ws
+  match pre with
+  | c :: a :: o :: ps :: ivs :: ops =>
+    let cap ← (← kv "cap" c).toNat?
+    let maxA ← (← kv "max" a).toNat?
+    let mode ← kv "orc" o
+    let ps0 ← parsePeerset (← kv "ps" ps)
+    let iv ← (← kv "iv" ivs).toNat?
+    if iv == 0 then none else
+    let ops0 ← parseOps 0 ops
+    if ops0.any (fun op => isCheck op || (match op with | .query _ => true | _ => false)) then none else
+    let (ops1, tbl) := renumber 0 (watchOps iv 0 ops0)
+    let evs ← if post == ["-"] then some [] else post.mapM parseWEvent
+    let nticks := (ops1.filter (· == .tick)).length
+    let orc : Nat → Nat → Nat → Bool ←
+      if mode == "T" then some (fun _ _ _ => true)
+      else if mode == "F" then some (fun _ _ _ => false)
+      else none
+    let out := watchObs tbl evs 0 ops1
+    pure ({ input := { cap := cap, maxA := maxA, ps0 := ps0, ops := ops1, t0 := caseT0 }, mode := mode, out := out, orc := orc },
+          eventAtTick ops1, evs.any (fun e => e.tick == 0 || e.tick > nticks))
+  | _ => none
+
+def answerWatch (ws : List String) : String :=
+  match parseWatch ws with
+  | none => "bad-case"
+  | some (c, amb, stray) =>
+    if amb then "bad-case event-at-tick-instant"
+    else if stray then
+      -- an alert or a forgetting outside every tick of the case: nothing in the model can produce it
+      "diff arm=watch model=event-outside-the-ticks"
+    else answerCase (some c) ["watch"]
 
 def answerCadence (ws : List String) : String :=
   match splitArrow ws with
@@ -199,6 +348,7 @@ def answerCadence (ws : List String) : String :=
 def answer (ws : List String) : String :=
   match ws with
   | "h" :: rest => answerHistory rest
+  | "w" :: rest => answerWatch rest
   | "cad" :: rest => answerCadence rest
   | _ => "bad-case unknown-kind"
 
